@@ -82,7 +82,7 @@ def plan(tier, seed):
                               "exhaustive": f"all 2^{n} chunk partitions of catalogue stream {i} ({n} bytes)"})
         items.append({"kind": "exh_gap", "stream": i,
                       "exhaustive": f"every timeout position x multiplicity 1..3 and all position pairs, stream {i}"})
-    nrand = 24000 if tier == "quick" else 400000
+    nrand = 24000 if tier == "quick" else 1600000
     per = 500 if tier == "quick" else 2500
     for s in range(0, nrand, per):
         items.append({"kind": "rand", "start": s, "count": per})
